@@ -98,7 +98,17 @@ D3sel == {Node("RadersAlgorithm", 0, 0, "", <<Planned(k, p - 1)>>) : p \in {q \i
          UNION {{Node("BluesteinsAlgorithm", n, 0, "", <<Planned(k, m)>>) : m \in InnerLens(n), k \in {"scalar", "auto"}} : n \in 2..BlueMax}
 D3 == {x \in D3sel : x.ch[1].pl \in KindsFor(TLen(x))}
 
-Trees == D1 \cup D2 \cup D3
+\* Large lengths: index tables, loop counters and stack buffers sized for "small" transforms meet lengths on both sides of
+\* 2^10 and 2^16 when the pair constructors are used directly (no planner builds these).
+BigLeaves == {Node("Radix4", 256, 0, "", << >>), Node("Radix4", 1024, 0, "", << >>), Node("Radix4", 64, 0, "", << >>),
+              Node("Radix3", 243, 0, "", << >>), Node("Butterfly", 32, 0, "", << >>), Node("Butterfly", 31, 0, "", << >>),
+              Node("Butterfly", 5, 0, "", << >>), Planned("scalar", 255), Planned("auto", 257), Planned("scalar", 33),
+              Node("RadersAlgorithm", 0, 0, "", <<Node("Radix4", 256, 0, "", << >>)>>)}
+BigOk(l) == IF BothKinds THEN (l >= 1025 /\ l <= 2300) \/ (l >= 60000 /\ l <= 70000) \/ l = 131072
+            ELSE (l >= 1025 /\ l <= 1300) \/ (l >= 65280 /\ l <= 65792)          \* quick tier: both sides of 2^10 and of 2^16
+D4 == {t \in {Node(k, 0, 0, "", <<a, b>>) : k \in PairKinds, a \in BigLeaves, b \in BigLeaves} : BigOk(TLen(t)) /\ RootPre(t)}
+
+Trees == D1 \cup D2 \cup D3 \cup D4
 
 VARIABLE t
 Init == t \in Trees
@@ -109,7 +119,7 @@ Export(x) == PrintT(<<"SCN", ToJson(x)>>)
 
 TreeInv ==
     /\ Pre(t)
-    /\ TLen(t) >= 1 /\ TLen(t) <= Max(MaxLen * 2, Max(PrimeMax, BlueMax))
+    /\ TLen(t) >= 1 /\ TLen(t) <= Max(MaxLen * 2, Max(PrimeMax, Max(BlueMax, 131072)))
     /\ Depth(t) \in 1..2
     /\ Export(t)
 =============================================================================
